@@ -3,7 +3,6 @@ package main
 import (
 	"bytes"
 	"compress/gzip"
-	"encoding/binary"
 	"encoding/json"
 	"fmt"
 	"io"
@@ -208,11 +207,16 @@ func tofileWorld(rc *RunCtx) {
 		if !ok || len(ta.IP.To4()) != 4 || ta.IP.To4()[0] != 10 {
 			return
 		}
-		ids := map[string]*tfMsg{} // ids are unique per topic only: one table per connection
-		up := &tfCmdParser{w: w, ids: ids}
-		down := &tfFrameParser{w: w, ids: ids}
-		cl.TapOut(up.feed)
-		sv.TapOut(down.feed)
+		t := tapConn(cl, sv, &w.mu)
+		t.onFin = func(_ *connTap, id string, body []byte, known bool) {
+			if !known {
+				return
+			}
+			w.mu.Lock()
+			m := w.msgs[string(body)]
+			w.mu.Unlock()
+			w.onFin(m, id)
+		}
 	}
 	simos.Install(&simos.Hooks{Before: w.before, After: w.after, Exit: w.exit})
 	simsignal.Activate(true)
@@ -834,94 +838,6 @@ func (w *tfWorld) finalAccounting() {
 	}
 	if missing == 0 {
 		w.rc.Probe("runs_fully_written")
-	}
-}
-
-// ---------------------------------------------------------------- taps
-
-// tfCmdParser reads the application's commands (client -> nsqd).
-type tfCmdParser struct {
-	w    *tfWorld
-	ids  map[string]*tfMsg
-	buf  []byte
-	body int // bytes of a length-prefixed body still to skip (-1: size word pending)
-}
-
-func (p *tfCmdParser) feed(b []byte) {
-	p.buf = append(p.buf, b...)
-	for {
-		if p.body == -1 {
-			if len(p.buf) < 4 {
-				return
-			}
-			p.body = int(binary.BigEndian.Uint32(p.buf[:4]))
-			p.buf = p.buf[4:]
-		}
-		if p.body > 0 {
-			if len(p.buf) < p.body {
-				p.body -= len(p.buf)
-				p.buf = nil
-				return
-			}
-			p.buf = p.buf[p.body:]
-			p.body = 0
-		}
-		i := bytes.IndexByte(p.buf, '\n')
-		if i < 0 {
-			return
-		}
-		line := string(p.buf[:i])
-		p.buf = p.buf[i+1:]
-		switch {
-		case line == "  V2" || strings.HasPrefix(line, "  V2"):
-			// magic has no newline; it is followed directly by the first command
-			line = strings.TrimPrefix(line, "  V2")
-			fallthrough
-		default:
-			f := strings.Fields(line)
-			if len(f) == 0 {
-				continue
-			}
-			switch f[0] {
-			case "IDENTIFY", "AUTH", "PUB", "MPUB", "DPUB":
-				p.body = -1
-			case "FIN":
-				if len(f) == 2 {
-					p.w.mu.Lock()
-					m := p.ids[f[1]]
-					p.w.mu.Unlock()
-					p.w.onFin(m, f[1])
-				}
-			}
-		}
-	}
-}
-
-// tfFrameParser reads nsqd's frames (nsqd -> application) to learn which id carries which body.
-type tfFrameParser struct {
-	w   *tfWorld
-	ids map[string]*tfMsg
-	buf []byte
-}
-
-func (p *tfFrameParser) feed(b []byte) {
-	p.buf = append(p.buf, b...)
-	for len(p.buf) >= 4 {
-		size := int(binary.BigEndian.Uint32(p.buf[:4]))
-		if len(p.buf) < 4+size {
-			return
-		}
-		fr := p.buf[4 : 4+size]
-		p.buf = p.buf[4+size:]
-		if size >= 4+26 && binary.BigEndian.Uint32(fr[:4]) == 2 {
-			id := string(fr[4+10 : 4+26])
-			body := string(fr[4+26:])
-			p.w.mu.Lock()
-			if m := p.w.msgs[body]; m != nil {
-				p.ids[id] = m
-			}
-			p.w.mu.Unlock()
-		}
 	}
 }
 
